@@ -319,9 +319,19 @@ class C16:
                         order = list(names)
                         rng.shuffle(order)
                         la['paths'] = order
-                    b.emit('load_average', la,
-                           tags={'k': 'load_average', 'avg': grp, 'n': k,
-                                 'refimg': refh is not None})
+                    avh = b.emit('load_average', la, store='avgimg',
+                                 tags={'k': 'load_average', 'avg': grp,
+                                       'n': k, 'refimg': refh is not None})
+                    if rng.random() < 0.4:
+                        # the averaged background is kept for later sessions
+                        npath += 1
+                        pth = 'avgsaved_%d.h5' % npath
+                        b.emit('img_save', {'img': avh, 'path': pth},
+                               tags={'k': 'h5-save', 'save': True,
+                                     'fmt': 'h5'})
+                        b.emit('img_load', {'path': pth}, store='avgre',
+                               tags={'k': 'h5-load', 'load': True,
+                                     'fmt': 'h5'})
             else:
                 o = draw_optics(rng)
                 for kk in list(o):
@@ -336,7 +346,11 @@ class C16:
                     rng.shuffle(items)
                     o[rng.choice(['noise_sd', 'illum_wavelen'])] = \
                         {'dict': items}
-                if 'illum_polarization' in o and rng.random() < 0.25:
+                if 'illum_polarization' in o and rng.random() < 0.15:
+                    # circular / elliptical light: complex components
+                    o['illum_polarization'] = [
+                        1, {'c': [0.0, rng.choice([1.0, -1.0, 0.5])]}]
+                elif 'illum_polarization' in o and rng.random() < 0.25:
                     # the same vector handed over as a labelled array
                     pv = list(o['illum_polarization']) + [0.0]
                     o['illum_polarization'] = {'xda': {
@@ -788,6 +802,22 @@ class C16:
     def _check_update(self, ex, ev, rec):
         ex.stats['oracle_sim'] += 1
         if rec['outcome'] != 'ok':
+            # per-channel values only make sense for an image that has
+            # those channels (after a node death a handle can resolve to
+            # another image than the one the values were drawn for): a
+            # refusal is then the right answer
+            tgt = ex.records.get(((rec.get('rargs') or {}).get('img')
+                                  or {}).get('ref'))
+            labels = []
+            if tgt and O.is_da(tgt.get('payload')) and \
+                    'illumination' in tgt['payload']['coords']:
+                labels = [str(x) for x in np.asarray(
+                    tgt['payload']['coords']['illumination']['values']
+                ).tolist()]
+            for v_ in (ev['args'].get('optics') or {}).values():
+                if isinstance(v_, dict) and 'dict' in v_ and \
+                        sorted(k_ for k_, _ in v_['dict']) != sorted(labels):
+                    return
             ex.add(violation('C16.update', ev['id'],
                              'update_metadata raised %s: %s' % (
                                  rec['exc'], rec['msg'][:100]),
